@@ -602,7 +602,23 @@ func runHostCase(c *hcase, r *res.Result) (string, string, int) {
 				}
 				select {
 				case <-peerMarks:
-				case <-time.After(20 * time.Second):
+				case <-time.After(10 * time.Second):
+					// the marker is a datagram the peer's socket sends to its own address through the router; its socket is
+					// open and covers that address. If the router's forwarding goroutine is parked (three samples) the
+					// datagram is not on its way any more: it was lost
+					parked := 0
+					for k := 0; k < 3; k++ {
+						for _, g := range gstate.Snapshot() {
+							if g.Has("vnet.(*Router).Start.func1") && gstate.Blocked(g.State) {
+								parked++
+								break
+							}
+						}
+						time.Sleep(2 * time.Millisecond)
+					}
+					if parked == 3 {
+						return "host:probe-lost", fmt.Sprintf("op %d: a datagram that the peer's socket (10.5.200.1:7000) sent to its own address through the router never arrived although the socket is open and the router is idle", i), i
+					}
 					return "", "inconclusive: flush marker did not return", i
 				}
 				from = "10.5.200.1:7000"
@@ -853,6 +869,9 @@ func main() {
 		return
 	}
 	for i := 0; i < nh; i++ {
+		if seen["host:probe-lost"] >= 3 {
+			break // every further case would wait for its lost marker as well; three witnesses are enough
+		}
 		c := genHostCase(rng, *tier == "thorough" && i%100 == 7 || *tier == "quick" && i == 7 && *shard == 0)
 		r.Eval(1)
 		k, d, at := runHostCase(c, r)
